@@ -277,6 +277,18 @@ def run(pid, tier, seed, replay=None):
         stats["states"] += r.distinct
         stats["transitions"] += r.generated
         mode_a.append(dict(spec="MC_Engine", distinct_states=r.distinct, exhaustive=True))
+        # self-referential definitions: RuntimeError, never a value, never a hang (liveness under fairness)
+        cfg = (common.SPEC / "MC_EngineCyclic.cfg").read_text()
+        if not quick:
+            cfg = cfg.replace("CONSTANT N = 1", "CONSTANT N = 2")
+        r = common.run_tlc("MC_EngineCyclic", cfg, timeout=3000)
+        if "No error has been found" not in r.out:
+            raise MachineryError("MC_EngineCyclic failed:\n" + r.out[-2500:])
+        stats["states"] += r.distinct
+        stats["transitions"] += r.generated
+        mode_a.append(dict(spec="MC_EngineCyclic", distinct_states=r.distinct, exhaustive=True,
+                           invariants=["InvCycleNeverFinished", "InvCycleRaises", "InvRecursionError", "InvIdleClean"],
+                           liveness="EveryRequestReturns under WF(Next)"))
         # ---- Mode B: expression histories on real series -----------------------
         shapes = [((2, 3), 1), ((2,), 2), ((), 1), ((2, 2), 1)]
         budget = 600 if quick else 12000
